@@ -197,8 +197,12 @@ func (n *networkAddressTranslator) translateOutbound(from Chunk) (Chunk, error) 
 			mapp := n.findOutboundMapping(oKey)
 			if mapp == nil {
 				// Create a new mapping
-				mappedPort := 0xC000 + n.udpPortCounter
-				n.udpPortCounter++
+				mappedPort, ok := n.allocateUDPPort()
+				if !ok {
+					n.log.Warnf("[%s] drop outbound chunk %s: no free port", n.name, from.String())
+
+					return nil, nil // nolint:nilnil
+				}
 
 				mapp = &mapping{
 					proto:   from.SourceAddr().Network(),
@@ -301,6 +305,22 @@ func (n *networkAddressTranslator) translateInbound(from Chunk) (Chunk, error) {
 }
 
 // caller must hold the mutex.
+// allocateUDPPort returns the next port of the dynamic range (49152-65535) that no
+// live mapping holds. Caller should hold the mutex.
+func (n *networkAddressTranslator) allocateUDPPort() (int, bool) {
+	const portBase, nPorts = 0xC000, 0x4000
+	for i := 0; i < nPorts; i++ {
+		port := portBase + n.udpPortCounter%nPorts
+		n.udpPortCounter++
+		iKey := fmt.Sprintf("udp:%s:%d", n.mappedIPs[0].String(), port)
+		if n.findInboundMapping(iKey) == nil {
+			return port, true
+		}
+	}
+
+	return 0, false
+}
+
 func (n *networkAddressTranslator) findOutboundMapping(oKey string) *mapping {
 	now := time.Now()
 
